@@ -63,6 +63,9 @@ def programs(tier: str):
                                 "fail": fail,
                             }
     yield from _cancel_programs(tier)
+    for limit in (1, 2):
+        for gaps in ([0.0, 0.0], [0.0, 0.5, 0.0], [0.5, 0.5]):
+            yield {"gaps": gaps, "limit": limit, "dur": 0.5, "period": "float", "fail": None, "attrs": True}
 
 
 def _cancel_programs(tier: str):
@@ -91,7 +94,6 @@ def execute(program, ch: Chooser) -> Result:  # noqa: C901, PLR0912, PLR0915
         results: dict[int, tuple] = {}
         errs = {i: TErr(f"e{i}") for i in range(n)}
 
-        @throttle(limit=limit, period=P if program["period"] == "float" else timedelta(seconds=P))
         async def fn(i):
             starts.append((i, now() - START))
             if dur > 0:
@@ -100,6 +102,13 @@ def execute(program, ch: Chooser) -> Result:  # noqa: C901, PLR0912, PLR0915
                 raise errs[i]
             return ("r", i)
 
+        if program.get("attrs"):
+            # the wrapped function carries attributes of its own that happen to be named like the
+            # wrapper's internals: they must not reconfigure the throttle
+            fn._limit = 99
+            fn._period = 0.0
+            fn._entries = None
+        fn = throttle(limit=limit, period=P if program["period"] == "float" else timedelta(seconds=P))(fn)
         tasks: dict[int, asyncio.Task] = {}
 
         async def call(i):
